@@ -60,6 +60,7 @@ META = {
 FLAGS = [(s, i, n) for s in (False, True) for i in (False, True) for n in (False, True)]
 KNOWN_STR_NAN = 'symbols-roundtrip-missing-str-nan'
 KNOWN_INT_RAISES = 'symbols-roundtrip-all-missing-int-typeerror'
+KNOWN_NONE_LABEL = 'df-index-none-label-nan'
 
 
 # ---- tokens ---------------------------------------------------------------------------------------------------
@@ -304,6 +305,15 @@ def names_ok(obj):
     return len(set(names)) == len(names) and 'status' not in names and 'iterations' not in names
 
 
+def violate(rep, key, what, case):
+    """Record at most 25 failing inputs per key (the framework keeps 500 in total: one frequent key must not crowd
+    out a different, new one); further ones are only counted."""
+    if rep.dist['violation:' + key] < 25:
+        rep.violate(key, what, case)
+    else:
+        rep.dist['violation:' + key] += 1
+
+
 # ---- oracle: the property restated on the real objects ------------------------------------------------------
 
 def same_label(a, b):
@@ -320,85 +330,90 @@ def oracle_table(obj, df, flags, rep, case, where):
     span = list(obj.span)
     idx = list(df.index)
     if len(idx) != len(span) or df.shape[0] != len(span):
-        rep.violate('df-row-count', f'{where}: {df.shape[0]} rows for a span of {len(span)} periods', case)
+        violate(rep, 'df-row-count', f'{where}: {df.shape[0]} rows for a span of {len(span)} periods', case)
         return
     for p, (a, b) in enumerate(zip(idx, span)):
         if not same_label(a, b):
-            rep.violate('df-index-label', f'{where}: index[{p}] = {a!r}, span[{p}] = {b!r}', case)
+            if b is None and isinstance(a, float) and a != a:
+                # specific class: a None label stored by pandas as NaN (every other label equal)
+                if all(same_label(x, y) for x, y in zip(idx, span) if y is not None):
+                    violate(rep, KNOWN_NONE_LABEL, f'{where}: span {span!r} exported with index {idx!r}', case)
+                    return
+            violate(rep, 'df-index-label', f'{where}: index[{p}] = {a!r}, span[{p}] = {b!r}', case)
             return
     got = list(df.columns)
     names = list(obj.names)
     if len(set(map(repr, got))) != len(got):
-        rep.violate('df-column-duplicate', f'{where}: duplicate column labels {got}', case)
+        violate(rep, 'df-column-duplicate', f'{where}: duplicate column labels {got}', case)
         return
     if ('status' in got) != st:
-        rep.violate('df-status-flag', f'{where}: status={st} but columns {got}', case)
+        violate(rep, 'df-status-flag', f'{where}: status={st} but columns {got}', case)
     if ('iterations' in got) != it:
-        rep.violate('df-iterations-flag', f'{where}: iterations={it} but columns {got}', case)
+        violate(rep, 'df-iterations-flag', f'{where}: iterations={it} but columns {got}', case)
     for nm in names:
         if nm.startswith('_'):
             if (nm in got) != internal:
-                rep.violate('df-internal-flag', f'{where}: include_internal={internal} but {nm!r} '
+                violate(rep, 'df-internal-flag', f'{where}: include_internal={internal} but {nm!r} '
                             f'{"present" if nm in got else "absent"}: {got}', case)
         elif nm not in got:
-            rep.violate('df-column-missing', f'{where}: variable {nm!r} has no column: {got}', case)
+            violate(rep, 'df-column-missing', f'{where}: variable {nm!r} has no column: {got}', case)
     for c in got:
         if c not in names and c not in ('status', 'iterations'):
-            rep.violate('df-column-unexpected', f'{where}: column {c!r} is not a variable: {got}', case)
+            violate(rep, 'df-column-unexpected', f'{where}: column {c!r} is not a variable: {got}', case)
     var_got = [c for c in got if c in names]
     var_want = [nm for nm in names if nm in got]
     if var_got != var_want:
-        rep.violate('df-column-order', f'{where}: variable columns {var_got}, model order {var_want}', case)
+        violate(rep, 'df-column-order', f'{where}: variable columns {var_got}, model order {var_want}', case)
     for nm in var_want:
         series = obj[nm]
         col = df[nm]
         if toks(col) != toks(series):
-            rep.violate('df-values', f'{where}: column {nm!r} holds {col.tolist()!r}, the series is {series.tolist()!r}', case)
+            violate(rep, 'df-values', f'{where}: column {nm!r} holds {col.tolist()!r}, the series is {series.tolist()!r}', case)
         elif series.dtype.kind in 'fiub' and col.dtype != series.dtype:
-            rep.violate('df-dtype', f'{where}: column {nm!r} has dtype {col.dtype}, the series {series.dtype}', case)
+            violate(rep, 'df-dtype', f'{where}: column {nm!r} has dtype {col.dtype}, the series {series.dtype}', case)
     if st and 'status' in got and toks(df['status']) != toks(obj.status):
-        rep.violate('df-status-values', f'{where}: status column {df["status"].tolist()} != {obj.status.tolist()}', case)
+        violate(rep, 'df-status-values', f'{where}: status column {df["status"].tolist()} != {obj.status.tolist()}', case)
     if it and 'iterations' in got:
         if toks(df['iterations']) != toks(obj.iterations):
-            rep.violate('df-iterations-values', f'{where}: iterations column {df["iterations"].tolist()} != '
+            violate(rep, 'df-iterations-values', f'{where}: iterations column {df["iterations"].tolist()} != '
                         f'{obj.iterations.tolist()}', case)
         elif df['iterations'].dtype != obj.iterations.dtype:
-            rep.violate('df-dtype', f'{where}: iterations column has dtype {df["iterations"].dtype}, the series '
+            violate(rep, 'df-dtype', f'{where}: iterations column has dtype {df["iterations"].dtype}, the series '
                         f'{obj.iterations.dtype}', case)
 
 
 def oracle_container(obj, df, rep, case, where):
     span = list(obj.span)
     if df.shape[0] != len(span) or not all(same_label(a, b) for a, b in zip(df.index, span)):
-        rep.violate('container-index', f'{where}: index {list(df.index)} for span {span}', case)
+        violate(rep, 'container-index', f'{where}: index {list(df.index)} for span {span}', case)
         return
     got = list(df.columns)
     want = list(obj.index)
     if sorted(got) != sorted(want):
-        rep.violate('container-columns', f'{where}: columns {got}, variables {want}', case)
+        violate(rep, 'container-columns', f'{where}: columns {got}, variables {want}', case)
         return
     if got != want:
-        rep.violate('container-column-order', f'{where}: columns {got}, variable order {want}', case)
+        violate(rep, 'container-column-order', f'{where}: columns {got}, variable order {want}', case)
         return
     for nm in want:
         if toks(df[nm]) != toks(obj[nm]):
-            rep.violate('container-values', f'{where}: column {nm!r} differs from the series', case)
+            violate(rep, 'container-values', f'{where}: column {nm!r} differs from the series', case)
         elif obj[nm].dtype.kind in 'fiub' and df[nm].dtype != obj[nm].dtype:
-            rep.violate('container-dtype', f'{where}: column {nm!r} dtype {df[nm].dtype} vs {obj[nm].dtype}', case)
+            violate(rep, 'container-dtype', f'{where}: column {nm!r} dtype {df[nm].dtype} vs {obj[nm].dtype}', case)
 
 
 def oracle_from_dataframe(M, m, df, m2, exc, rep, case, where):
     """`m2 = M.from_dataframe(df)` where df holds (a subset of) the data columns of `m`."""
     if exc is not None:
-        rep.violate('from-dataframe-raises', f'{where}: {type(exc).__name__}: {exc}', case)
+        violate(rep, 'from-dataframe-raises', f'{where}: {type(exc).__name__}: {exc}', case)
         return
     a, b = list(m2.span), list(m.span)
     if len(a) != len(b) or not all(same_label(x, y) for x, y in zip(a, b)):
-        rep.violate('from-dataframe-span', f'{where}: span {a!r}, original {b!r}', case)
+        violate(rep, 'from-dataframe-span', f'{where}: span {a!r}, original {b!r}', case)
         return
     for nm in M.NAMES:
         if nm in df.columns and toks(m2[nm]) != toks(m[nm]):
-            rep.violate('from-dataframe-values', f'{where}: {nm!r} = {m2[nm].tolist()!r}, original {m[nm].tolist()!r}', case)
+            violate(rep, 'from-dataframe-values', f'{where}: {nm!r} = {m2[nm].tolist()!r}, original {m[nm].tolist()!r}', case)
 
 
 def classify_symbol_diff(orig, back):
@@ -444,10 +459,10 @@ def oracle_symbols(ss, back, exc, rep, case):
     if exc is not None:
         all_missing = bool(ss) and (all(s.lags is None for s in ss) or all(s.leads is None for s in ss))
         key = KNOWN_INT_RAISES if (isinstance(exc, TypeError) and all_missing) else 'symbols-roundtrip-raises'
-        rep.violate(key, f'round trip raised {type(exc).__name__}: {exc}', case)
+        violate(rep, key, f'round trip raised {type(exc).__name__}: {exc}', case)
         return key
     if not isinstance(back, list) or len(back) != len(ss):
-        rep.violate('symbols-roundtrip-length', f'{len(ss)} symbols in, {len(back) if isinstance(back, list) else type(back).__name__} out', case)
+        violate(rep, 'symbols-roundtrip-length', f'{len(ss)} symbols in, {len(back) if isinstance(back, list) else type(back).__name__} out', case)
         return 'symbols-roundtrip-length'
     diff = classify_symbol_diff(ss, back)
     if not diff:
@@ -457,7 +472,7 @@ def oracle_symbols(ss, back, exc, rep, case):
     else:
         key = 'symbols-roundtrip-' + '+'.join(sorted(diff - {'missing-str-nan'}))
     bad = [(a, b) for a, b in zip(ss, back) if classify_symbol_diff([a], [b])][:2]
-    rep.violate(key, f'round trip changed symbols: {bad!r}', case)
+    violate(rep, key, f'round trip changed symbols: {bad!r}', case)
     return key
 
 
@@ -704,7 +719,7 @@ def oracle_linker(l, flags, d, rep, case):
     if any(same_label(l.name, k) for k in subkeys):
         return 'name-collision'   # a dict cannot hold both tables: the property has no reading here
     if not isinstance(d, dict) or len(d) != len(subkeys) + 1 or set(map(ktok, d.keys())) != set(map(ktok, subkeys + [l.name])):
-        rep.violate('linker-tables-keys', f'to_dataframes{kw}: keys {list(d.keys()) if isinstance(d, dict) else type(d)}, '
+        violate(rep, 'linker-tables-keys', f'to_dataframes{kw}: keys {list(d.keys()) if isinstance(d, dict) else type(d)}, '
                     f'submodels {subkeys}, linker {l.name!r}', case)
         return 'bad-keys'
     oracle_table(l, d[l.name], flags, rep, case, f'linker table {l.name!r} {kw}')
@@ -832,7 +847,7 @@ def run_symbols(ctx, rep, scripts, n_sub):
                          f'NaN / a raise but the implementation returned the original list (property-conforming; accepted)')
 
 
-PROBE_SPANS = [[1, None, 2], [None, 'a'], [float('nan'), 1.0]]
+PROBE_SPANS = [[1, None, 2], [None, 'a']]
 
 
 def run_probes(ctx, rep):
@@ -847,6 +862,25 @@ def run_probes(ctx, rep):
             rep.notes.append(f'add_variable({nm!r}) did not raise: the NamesOk guard is no longer enforced by the code')
         except Exception:  # noqa: BLE001
             rep.dist['guard:add_variable(%s) rejected' % nm] += 1
+    # spans pandas cannot hold as they are (outside the model: oracle only)
+    for sp in PROBE_SPANS:
+        case = {'kind': 'probe-span', 'script': 'Y = X', 'span': sp}
+        m = M(list(sp))
+        oracle_table(m, m.to_dataframe(), (True, True, False), rep, case, f'to_dataframe() of a model with span {sp!r}')
+        rep.case(json.dumps(case), nontrivial=True)
+    # plain containers
+    for k in range(3):
+        c = VectorContainer(make_span(SPAN_KINDS[k * 4], 3, k))
+        c.add_variable('B', [True, False, True])
+        c.add_variable('_n', [1, 2, 3], dtype=np.int32)
+        c.add_variable('F', 0.5)
+        case = {'kind': 'probe-container', 'k': k}
+        df = c.to_dataframe()
+        oracle_container(c, df, rep, case, 'VectorContainer.to_dataframe')
+        rep.case(json.dumps(case), nontrivial=True)
+        if not ctx.oracle_only:
+            check_tables(ctx, rep, [('VectorContainer.to_dataframe (plain container)', store_json(c), None,
+                                     table_canon(df), case)])
     # empty symbol list
     back, exc = symbol_round_trip([])
     oracle_symbols([], back, exc, rep, {'kind': 'symbols', 'script': ''})
@@ -855,16 +889,16 @@ def run_probes(ctx, rep):
 
 def run(ctx, rep):
     quick = ctx.tier == 'quick'
-    n_models = (170 if quick else 2500) * ctx.scale
-    n_linkers = (45 if quick else 600) * ctx.scale
-    n_sub = (400 if quick else 6000) * ctx.scale
+    n_models = (420 if quick else 4000) * ctx.scale
+    n_linkers = (110 if quick else 1000) * ctx.scale
+    n_sub = (800 if quick else 8000) * ctx.scale
     with warnings.catch_warnings():
         warnings.simplefilter('ignore')
         scripts = run_models(ctx, rep, n_models)
         run_linkers(ctx, rep, n_linkers, scripts)
         extra = []
         rng = ctx.sub_rng('symscripts')
-        for _ in range((400 if quick else 6000) * ctx.scale):
+        for _ in range((900 if quick else 8000) * ctx.scale):
             extra.append(gen_script(rng))
         run_symbols(ctx, rep, scripts + extra, n_sub)
         run_probes(ctx, rep)
@@ -923,5 +957,10 @@ def replay(ctx, rep, case):
                 print({k: list(v.columns) for k, v in d.items()} if isinstance(d, dict) else d)
             else:
                 oracle_table(l, l.to_dataframe(**kw), flags, rep, case, f'linker.to_dataframe{kw}')
+        elif kind == 'probe-span':
+            m = model_class(case['script'])(list(case['span']))
+            df = m.to_dataframe()
+            oracle_table(m, df, (True, True, False), rep, case, f'to_dataframe() of a model with span {case["span"]!r}')
+            print(df)
         else:
             print('  unknown case kind', kind)
